@@ -59,6 +59,46 @@ class Cursor(object):
             self.paths.append((st, o))
 
 
+class ReaderPaths(object):
+    """All paths through "read one node" of a cursor-based reader class, whatever the division into methods: the walk
+    starts at `parse`, the dispatch property / method, the leaf reader and the node reader are inlined (a recursive call
+    for a child stays a call), every self.<next>() yields ('sym','field',k) counted from the start of the node.  Paths
+    are classified by the Tree factory they call: leaf / unary / binary / other (raise, ...)."""
+
+    def __init__(self, mod, cls_name, next_name='next', entry='parse'):
+        import ast as _ast
+        from .pysym import VOCABULARY
+        cls = mod.get(cls_name)
+        methods = {s_.name for s_ in cls.body if isinstance(s_, _ast.FunctionDef)}
+        self.entry = mod.get('%s.%s' % (cls_name, entry))
+
+        def on_call(st, t, node):
+            if t[1] == A(N('self'), next_name):
+                k = st.data.get('k', 0)
+                st.data['k'] = k + 1
+                st.data.setdefault('args', {})[k] = t[2]
+                return ('sym', 'field', k)
+            return None
+        self.paths = SymExec(self.entry, unroll=1, on_call=on_call, inline_also=tuple((methods & set(VOCABULARY)) - {next_name, 'check', 'peek'}),
+                             no_inline=(next_name,)).run()
+        self.by_kind = {'leaf': [], 'unary': [], 'binary': [], 'other': []}
+        for st, o in self.paths:
+            made = [e[1][1][2] for e in st.events if e[0] == 'call' and e[1][1][0] == 'attr' and e[1][1][1] == N('Tree') and e[1][1][2].startswith('make_')]
+            kind = {'make_terminal': 'leaf', 'make_unary': 'unary', 'make_binary': 'binary'}.get(made[0], 'other') if len(made) == 1 and o == 'return' else 'other'
+            self.by_kind[kind].append((st, o))
+
+    def node_paths(self):
+        return self.by_kind['unary'] + self.by_kind['binary']
+
+    @staticmethod
+    def value_of(st):
+        """the node the path produced: what the entry returns, or its first component when it returns (node, tokens)"""
+        r = st.ret
+        if r is not None and r[0] == 'tuple' and r[1]:
+            return r[1][0]
+        return r
+
+
 def field_ids(t):
     return sorted({s[2] for s in subterms(t) if s[0] == 'sym' and s[1] == 'field'})
 
